@@ -53,7 +53,7 @@ def values(tier, rnd):
         for c in ALPHA:
             vals.add(l + c)
     big = ALPHA + LEAD + ["b", ";", "&", "|", "<", ">", "(", ")", "?", "]", "}", "^", "%", "🚀", "\x02", "\x1f"]
-    for _ in range(300 if tier == "quick" else 20000):
+    for _ in range(300 if tier == "quick" else 2500):
         vals.add("".join(rnd.choice(big) for _ in range(rnd.randint(4, 40))))
     return sorted(vals)
 
@@ -201,7 +201,7 @@ def run(tier):
         "evaluations": len(produced) + nevals, "distinct_nontrivial": sum(1 for x in vals if any(c in x for c in "'\"\\$`! \n\r\x01")),
         "rule": "values = every string of <= 3 characters over %r, every value starting with one of %r, and %d seeded random strings of 4-40 characters; forms = printf %%q, ${v@Q}, "
                 "${v@A}, declare -p (scalar, indexed element, associative key+value; both also for a readonly exported variable, attributes included), export -p, set, alias, trap -p, set -x trace; each rendering is read by Quote.tla (word forms) and "
-                "eval'ed in a fresh brush and a fresh bash; non-trivial = the value contains a character that needs quoting" % ("".join(ALPHA), "".join(LEAD), 300 if tier == "quick" else 20000),
+                "eval'ed in a fresh brush and a fresh bash; non-trivial = the value contains a character that needs quoting" % ("".join(ALPHA), "".join(LEAD), 300 if tier == "quick" else 2500),
         "values": len(vals), "word_form_records": len(word_records), "eval_round_trips": nevals, "exhaustive": True,
         "samples": [{"form": r0["form"], "value": r0["v"], "text": r0["text"]} for r0 in word_records[:: max(1, len(word_records) // 3)][:3]],
     }, assumptions=["values are valid UTF-8 without NUL, injected through the environment (no shell parsing on the way in)", "locale C.UTF-8"])
